@@ -4,6 +4,7 @@ import (
 	"fmt"
 	"go/token"
 	"go/types"
+	"sort"
 	"strings"
 
 	"golang.org/x/tools/go/ssa"
@@ -320,9 +321,13 @@ func checkC01(c *Ctx, r *Report) {
 	r.rule("C01.R8", "every rating group is rated and debited under its own identifier and with numbers of full width: neither server narrows a look-up key taken from the request or a number parsed from the database (shared with C07.R7/C08.R6)", 4)
 	r.rule("C01.R9", "the clients wait the specified 5 s for an answer: the account server moves the money before it answers, so an answer that arrives within 5 s must still be taken (a shorter wait abandons a debit that has happened - the reservation is never booked)", 2)
 	r.rule("C01.R10", "a rating group is charged from its first report on and keeps its mode afterwards: FindRatingGroup tests membership in the subscriber's list of groups, element by element", 1)
+	r.rule("C01.R11", "a subscriber's credit-control steps do not interleave: every exchange with the rating function and the account server is made with the subscriber's lock held (shared with C19.R10) - a step that reads the reservation, waits for a peer and writes it back unlocked wipes what another session of the subscriber booked meanwhile", 3)
+	r.rule("C01.R12", "every SUPI format the CHF admits has a Subscription-Id type of its own in the credit-control requests (two formats with one type share an account and a tariff)", 1)
 	r.rule("C01.R7", "the reserve step and the debit step of a rating group exclude each other within one request (the mode is not re-read after it may have been switched)", 1)
 	r.rule("C01.R6", "account server stores the balance before it answers (shared with C07.R5)", 1)
 
+	r.shareFrom(c, checkC19, map[string]string{"C19.R10": "C01.R11"})
+	c01AdmittedSubscribersDistinct(c, r, "C01.R12")
 	m := buildChfModel(c)
 	m.checkModeExclusive(c, r, "C01.R7")
 	f, fe := m.f, m.fe
@@ -795,6 +800,7 @@ func checkC06(c *Ctx, r *Report) {
 	r.rule("C06.R7", "the money a grant is measured against is that of the request's own subscriber and rating group, in full width (shared with C07.R7/C08.R6)", 4)
 	r.rule("C06.R8", "the CHF turns money into units with the unit cost the rating function applied (shared with C08.R3): a smaller decoded cost grants more units than the reserved money buys", 2)
 	r.rule("C06.R9", "a rating group keeps the debit mode (and with it the final-unit state) it was put in: FindRatingGroup finds every group of the subscriber's list (shared with C01.R10)", 1)
+	r.rule("C06.R10", "every response a create or an update returns was produced by the credit control of that request (no replayed grants)", 2)
 	r.rule("C06.R6", "the reservation, unit-cost and mode cells are changed only by the accounting transitions the other rules describe, and the context that holds them is not dropped on the request path (shared with C01.R5)", 4)
 	r.rule("C06.R5", "the rating function converts reserved money into units by floor division: AllowedUnits = quota div unit cost, Price = units x unit cost (shared with C08.R2)", 2)
 
@@ -889,7 +895,7 @@ func checkC06(c *Ctx, r *Report) {
 	}
 
 	// ---- R3 final unit indication
-	TERMINATE := constOf(c, "ccs_diameter/datatype", "TERMINATE")
+	_ = constOf(c, "ccs_diameter/datatype", "TERMINATE") // the anchor constant must exist
 	var fuiLocal *ssa.Alloc
 	eachInstr(f, func(_ *ssa.BasicBlock, _ int, ins ssa.Instruction) {
 		if a, ok := ins.(*ssa.Alloc); ok && typeIs(a.Type(), modelsPath, "FinalUnitIndication") && a.Comment == "finalUnitIndication" {
@@ -959,7 +965,9 @@ func checkC06(c *Ctx, r *Report) {
 					nonNil = true
 				}
 				if fromCCA && strings.HasSuffix(ps, "FinalUnitIndication.FinalUnitAction") && bo.Op == token.EQL {
-					if k, ok := constInt(bo.Y); ok && k == TERMINATE && edgeDominates(b, b.Succs[0], st.Block()) {
+					// TERMINATE today; any action the CHF names explicitly is a signalled action (which
+					// actions the account server can send, and that each is named here, is the next clause)
+					if _, ok := constInt(bo.Y); ok && edgeDominates(b, b.Succs[0], st.Block()) {
 						isTerm = true
 					}
 				}
@@ -991,10 +999,83 @@ func checkC06(c *Ctx, r *Report) {
 		}
 	}
 	r.check(okAll, "C06.R3", key+"|final-unit", c.rel(f.Pos()), "set only on the edge FinalUnitIndication != nil && FinalUnitAction == TERMINATE of the account answer", why)
+	// the two ends agree on the actions: every Final-Unit-Action the account server of this
+	// repository can put into its answer is one the CHF turns into an indication of the response
+	{
+		handled := map[int64]bool{}
+		for _, b := range f.Blocks {
+			if len(b.Instrs) == 0 {
+				continue
+			}
+			ifi, ok := b.Instrs[len(b.Instrs)-1].(*ssa.If)
+			if !ok {
+				continue
+			}
+			bo, ok := ifi.Cond.(*ssa.BinOp)
+			if !ok || bo.Op != token.EQL {
+				continue
+			}
+			p, ok := pathOf(bo.X)
+			if !ok || !strings.HasSuffix(strings.Join(p.Elems, "."), "FinalUnitIndication.FinalUnitAction") {
+				continue
+			}
+			k, ok := constInt(bo.Y)
+			if !ok {
+				continue
+			}
+			for _, ref := range *fuiLocal.Referrers() {
+				var blk *ssa.BasicBlock
+				switch x := ref.(type) {
+				case *ssa.Store:
+					if x.Addr == ssa.Value(fuiLocal) {
+						blk = x.Block()
+					}
+				case *ssa.FieldAddr:
+					for _, r2 := range *x.Referrers() {
+						if s2, ok := r2.(*ssa.Store); ok && s2.Addr == ssa.Value(x) {
+							blk = s2.Block()
+						}
+					}
+				}
+				if blk != nil && edgeDominates(b, b.Succs[0], blk) {
+					handled[k] = true
+				}
+			}
+		}
+		nSent := 0
+		for _, g := range c.ModFuncs {
+			rg := rootOf(g)
+			if rg.Pkg == nil || !strings.HasSuffix(rg.Pkg.Pkg.Path(), "/pkg/abmf") {
+				continue
+			}
+			eachInstr(g, func(_ *ssa.BasicBlock, _ int, ins ssa.Instruction) {
+				st, ok := ins.(*ssa.Store)
+				if !ok {
+					return
+				}
+				fa, ok := st.Addr.(*ssa.FieldAddr)
+				if !ok || fieldName(fa) != "FinalUnitAction" {
+					return
+				}
+				for _, lf := range leavesOf(st.Val) {
+					nSent++
+					k, isC := constInt(lf.val)
+					sk := fmt.Sprintf("%s|final-unit action sent #%d", fnKey(rg), nSent)
+					if !isC {
+						r.viol("C06.R3", sk, posOf(c, st), "the account server puts a Final-Unit-Action into its answer that is not a constant ("+describe(lf.val)+"): cannot be matched against the actions the CHF translates")
+						continue
+					}
+					r.check(handled[k], "C06.R3", sk, posOf(c, st), fmt.Sprintf("action %d is translated by the CHF into the indication of the response", k),
+						fmt.Sprintf("the account server can answer with Final-Unit-Action %d, which the CHF does not translate (it handles %v): the units granted are the last ones the money buys, and the response carries no final-unit indication", k, keysOfInt64(handled)))
+				}
+			})
+		}
+	}
 
 	// ---- R4
 	abmfRules(c, r, "C06.R4", "C06.R4", "", "", "", "")
 	r.shareFrom(c, checkC08, map[string]string{"C08.R3": "C06.R8"})
+	c06GrantsComeFromCreditControl(c, r, "C06.R10")
 
 	// ---- R5: the CHF trusts the rating function to turn money into units
 	rfRules(c, r, "", "C06.R5", "", "", "C06.R5")
@@ -1075,4 +1156,13 @@ func c06Bounded(fe *formEval, v ssa.Value, R poly, depth int, nonNeg bool) bool 
 		return !nonNeg && polyEqual(fe.eval(v), R)
 	}
 	return false
+}
+
+func keysOfInt64(m map[int64]bool) []int64 {
+	var out []int64
+	for k := range m {
+		out = append(out, k)
+	}
+	sort.Slice(out, func(i, j int) bool { return out[i] < out[j] })
+	return out
 }
